@@ -305,7 +305,13 @@ pub async fn run_case(case: &Case) -> Outc {
     if first.is_error() && first_settled && case.ctl == ControlAnswer::None && !(case.ctl_gated && app_acts_later) {
         o.code_checked = true;
         match discs.first() {
-            None => o.violations.push((format!("no DISCONNECT written for {first:?} (peer was reading, application supplied none)"), what.clone())),
+            // "it carries exactly that code" presupposes a DISCONNECT for the causes with a dedicated
+            // code; for other errors the statement only constrains a DISCONNECT that is written
+            None => {
+                if matches!(first, Init::V(k) if k.dedicated().is_some()) {
+                    o.violations.push((format!("no DISCONNECT written for {first:?} (peer was reading, application supplied none)"), what.clone()));
+                }
+            }
             Some(d) => {
                 if d.2 == 0 {
                     o.violations.push((format!("DISCONNECT for {first:?} claims normal disconnection"), what.clone()));
